@@ -1,2 +1,338 @@
+"""Translator, third part: the three copies of the builder API (builder.rs, python.rs, wasm.rs) and the
+CLI flag table / dispatch of main.rs -> Gen/Setters.lean, Gen/Cli.lean.
+
+Rust subset for a setter body (whitespace-insensitive, `<cfg>` is `self.config`, `self_.config` or
+`self.builder.config`):
+    <cfg>.FIELD = true;            -> .setTrue FIELD
+    <cfg>.FIELD = ARG;             -> .setArg FIELD        (also `ARG as u32`)
+    if ARG == 0 { panic!("{}", MSG); }                       -> .failIfZero MSG
+    if ARG < 1 { return Err(JsValue::from(MSG)); }           -> .failIfZero MSG
+    if ARG <= 0 { Err(PyValueError::new_err(MSG)) } else { <assign>; Ok(self_) }  -> .failIfNonPos MSG, assign
+    final expression: self | self_ | self.clone() | Ok(self.clone()) | Ok(self_)
+Anything else is an error naming the function.
+"""
+import os
+import re
+
+FIELDS = {
+    "minimum_repetitions": "minRep", "minimum_substring_length": "minLen", "is_digit_converted": "digit",
+    "is_non_digit_converted": "nonDigit", "is_space_converted": "space", "is_non_space_converted": "nonSpace",
+    "is_word_converted": "word", "is_non_word_converted": "nonWord", "is_repetition_converted": "rep",
+    "is_case_insensitive_matching": "ci", "is_capturing_group_enabled": "cap", "is_non_ascii_char_escaped": "esc",
+    "is_astral_code_point_converted_to_surrogate": "sur", "is_verbose_mode_enabled": "verb",
+    "is_start_anchor_disabled": "noStart", "is_end_anchor_disabled": "noEnd", "is_output_colorized": "color",
+}
+MSGS = {"MISSING_TEST_CASES_MESSAGE": "missingTestCases", "MINIMUM_REPETITIONS_MESSAGE": "minRep",
+        "MINIMUM_SUBSTRING_LENGTH_MESSAGE": "minLen"}
+SETTER_IDS = {
+    "with_conversion_of_digits": "digits", "with_conversion_of_non_digits": "nonDigits",
+    "with_conversion_of_whitespace": "whitespace", "with_conversion_of_non_whitespace": "nonWhitespace",
+    "with_conversion_of_words": "words", "with_conversion_of_non_words": "nonWords",
+    "with_conversion_of_repetitions": "repetitions", "with_case_insensitive_matching": "caseInsensitive",
+    "with_capturing_groups": "capturingGroups", "with_minimum_repetitions": "minRepetitions",
+    "with_minimum_substring_length": "minSubstringLength", "with_escaping_of_non_ascii_chars": "escaping",
+    "with_verbose_mode": "verbose", "without_start_anchor": "noStartAnchor", "without_end_anchor": "noEndAnchor",
+    "without_anchors": "noAnchors", "with_syntax_highlighting": "syntaxHighlighting",
+}
+CLI_FIELDS = {
+    "digits": "digits", "non-digits": "nonDigits", "spaces": "spaces", "non-spaces": "nonSpaces", "words": "words",
+    "non-words": "nonWords", "escape": "escape", "with-surrogates": "withSurrogates", "repetitions": "repetitions",
+    "min-repetitions": "minRepetitions", "min-substring-length": "minSubstringLength",
+    "no-start-anchor": "noStartAnchor", "no-end-anchor": "noEndAnchor", "no-anchors": "noAnchors",
+    "verbose": "verbose", "colorize": "colorize", "ignore-case": "ignoreCase", "capture-groups": "captureGroups",
+}
+
+
+def camel_to_snake(name):
+    return re.sub(r"(?<!^)([A-Z])", lambda m: "_" + m.group(1).lower(), name).lower()
+
+
+def balanced(t, src, i, where):
+    import translate_src
+    return translate_src.balanced(t, src, i, where)
+
+
+def functions(t, src, where):
+    """yields (attrs_text, name, params_text, ret_text, body_text) for every fn in src"""
+    for m in re.finditer(r"((?:\s*#\[[^\]]*\]\s*)*)\s*(?:pub(?:\([a-z]+\))?\s+)?fn\s+(\w+)\s*(?:<(?:[^<>]|<[^<>]*>)*>)?\s*\(", src):
+        i = m.end() - 1
+        params = balanced_paren(t, src, i, where)
+        j = i + len(params) + 2
+        k = src.index("{", j)
+        ret = src[j:k].strip()
+        body = balanced(t, src, k, where)
+        yield m.group(1), m.group(2), params, ret, body
+
+
+def balanced_paren(t, src, i, where):
+    depth = 0
+    j = i
+    while True:
+        if src[j] == "(":
+            depth += 1
+        elif src[j] == ")":
+            depth -= 1
+            if depth == 0:
+                return src[i + 1:j]
+        j += 1
+
+
+def norm(s):
+    return re.sub(r"\s+", " ", s).strip()
+
+
+def parse_setter(t, where, name, params, body, cfg_re, self_names):
+    params_n = norm(params)
+    plist = [p.strip() for p in params_n.split(",") if p.strip()]
+    args = [p for p in plist if not re.match(r"(&mut self|mut self_\s*:.*|&self|self)$", p)]
+    if len(args) > 1:
+        raise t.TranslateError(f"{where}: fn {name}: more than one argument")
+    arg_name, arg_kind = None, "none"
+    if args:
+        mm = re.match(r"(\w+)\s*:\s*(\w+)$", args[0])
+        if not mm:
+            raise t.TranslateError(f"{where}: fn {name}: unsupported parameter {args[0]!r}")
+        arg_name = mm.group(1)
+        ty = mm.group(2)
+        arg_kind = {"bool": "bool", "u32": "nat", "i32": "int"}.get(ty)
+        if arg_kind is None:
+            raise t.TranslateError(f"{where}: fn {name}: unsupported parameter type {ty}")
+    b = norm(body)
+    stmts = []
+    final_ok = "|".join(re.escape(x) for x in self_names)
+
+    def assign(text):
+        mm = re.fullmatch(cfg_re + r"\s*\.\s*(\w+) = (true|\w+|\w+ as u32)", norm(text))
+        if not mm:
+            raise t.TranslateError(f"{where}: fn {name}: unsupported statement {text!r}")
+        f = mm.group(1)
+        if f not in FIELDS:
+            raise t.TranslateError(f"{where}: fn {name}: unknown config field {f}")
+        rhs = mm.group(2)
+        if rhs == "true":
+            return f".setTrue .{FIELDS[f]}"
+        if rhs.split(" ")[0] != arg_name:
+            raise t.TranslateError(f"{where}: fn {name}: right-hand side {rhs!r} is not the argument")
+        return f".setArg .{FIELDS[f]}"
+
+    rest = b
+    # python style: if ARG <= 0 { Err(..MSG) } else { assign; Ok(self_) }
+    mm = re.fullmatch(r"if (\w+) <= 0 \{ Err\(PyValueError::new_err\((\w+)\)\) \} else \{ (.*?); Ok\((?:" + final_ok + r")\) \}", rest)
+    if mm:
+        if mm.group(1) != arg_name or mm.group(2) not in MSGS:
+            raise t.TranslateError(f"{where}: fn {name}: unsupported guard")
+        return arg_kind, [f".failIfNonPos .{MSGS[mm.group(2)]}", assign(mm.group(3))]
+    while True:
+        mm = re.match(r"if (\w+) (== 0|< 1) \{ (?:panic!\(\"\{\}\", (\w+)\);|return Err\(JsValue::from\((\w+)\)\);) \} ", rest)
+        if mm:
+            msg = mm.group(3) or mm.group(4)
+            if mm.group(1) != arg_name or msg not in MSGS:
+                raise t.TranslateError(f"{where}: fn {name}: unsupported guard")
+            stmts.append(f".failIfZero .{MSGS[msg]}")
+            rest = rest[mm.end():]
+            continue
+        mm = re.match(r"([^;{}]+);\s*", rest)
+        if mm:
+            stmts.append(assign(mm.group(1)))
+            rest = rest[mm.end():]
+            continue
+        break
+    if not re.fullmatch(r"(?:" + final_ok + r")", rest.strip()):
+        raise t.TranslateError(f"{where}: fn {name}: unsupported tail {rest.strip()[:80]!r}")
+    return arg_kind, stmts
+
+
+def lean_setters(name, items, doc):
+    rows = []
+    for sid, kind, stmts in items:
+        rows.append(f"  ⟨.{sid}, .{kind}, [{', '.join(stmts)}]⟩")
+    return f"/-- {doc} -/\ndef {name} : List Setter := [\n" + ",\n".join(rows) + "]\n"
+
+
+def gen_setters(t):
+    R = t.REPO
+    out = ["-- GENERATED by tools/translate.py from /repo/src/{builder,python,wasm}.rs — do not edit",
+           "import Grexv.Model.GenTypes", "namespace Grexv.Gen\n"]
+    # ---------------- builder.rs
+    p = os.path.join(R, "src", "builder.rs")
+    src = t.strip_comments(t.read(p))
+    rs = []
+    from_checks_empty = False
+    from_file_delegates = False
+    for attrs, name, params, ret, body in functions(t, src, p):
+        if name in SETTER_IDS:
+            kind, stmts = parse_setter(t, p, name, params, body, r"self\.config", ["self"])
+            rs.append((SETTER_IDS[name], kind, stmts))
+        elif name == "from":
+            from_checks_empty = bool(re.search(r"if test_cases\.is_empty\(\) \{ panic!\(\"\{\}\", MISSING_TEST_CASES_MESSAGE\); \}", norm(body)))
+        elif name == "build":
+            if norm(body) != "RegExp::from(&mut self.test_cases, &self.config).to_string()":
+                raise t.TranslateError(f"{p}: fn build is not `RegExp::from(&mut self.test_cases, &self.config).to_string()`")
+        elif name == "from_file":
+            from_file_delegates = "Ok(file_content) => { Self::from(&file_content.lines().map(|it| it.to_string()).collect_vec()) }" in norm(body)
+        else:
+            raise t.TranslateError(f"{p}: unexpected function {name} in the builder")
+    if len(rs) != len(SETTER_IDS):
+        raise t.TranslateError(f"{p}: expected {len(SETTER_IDS)} setters, found {len(rs)}")
+    out.append(lean_setters("rsSetters", rs, "setters of `RegExpBuilder` (src/builder.rs)"))
+    out.append(f"def rsFromRejectsEmpty : Bool := {'true' if from_checks_empty else 'false'}")
+    out.append(f"/-- `from_file` = `from` on `str::lines` of the file -/\ndef rsFromFileDelegatesToFrom : Bool := {'true' if from_file_delegates else 'false'}\n")
+
+    # ---------------- python.rs
+    p = os.path.join(R, "src", "python.rs")
+    src = t.strip_comments(t.read(p))
+    py = []
+    py_new_rejects = False
+    py_build_rewrites = None
+    for attrs, name, params, ret, body in functions(t, src, p):
+        m = re.search(r'#\[pyo3\(name\s*=\s*"(\w+)"\)\]', attrs)
+        if m and m.group(1) in SETTER_IDS:
+            kind, stmts = parse_setter(t, p, name, params, body, r"self_\.config", ["self_"])
+            py.append((SETTER_IDS[m.group(1)], kind, stmts))
+        elif m and m.group(1) == "build":
+            b = norm(body)
+            if b != "let regexp = self.build(); if self.config.is_non_ascii_char_escaped { replace_unicode_escape_sequences(regexp) } else { regexp }":
+                raise t.TranslateError(f"{p}: fn {name} (build) has an unexpected body")
+            py_build_rewrites = True
+        elif name == "new":
+            b = norm(body)
+            py_new_rejects = b == "if test_cases.is_empty() { Err(PyValueError::new_err(MISSING_TEST_CASES_MESSAGE)) } else { Ok(Self { test_cases, config: RegExpConfig::new(), }) }"
+            if not py_new_rejects:
+                raise t.TranslateError(f"{p}: fn new has an unexpected body")
+        elif name == "from_test_cases":
+            if norm(body) != "Self::new(test_cases)":
+                raise t.TranslateError(f"{p}: fn from_test_cases does not delegate to new")
+        elif name in ("grex", "replace_unicode_escape_sequences"):
+            pass
+        else:
+            raise t.TranslateError(f"{p}: unexpected function {name}")
+    out.append(lean_setters("pySetters", py, "setters of the Python class (src/python.rs)"))
+    out.append(f"def pyNewRejectsEmpty : Bool := {'true' if py_new_rejects else 'false'}")
+    out.append(f"def pyBuildRewritesWhenEscaped : Bool := {'true' if py_build_rewrites else 'false'}\n")
+
+    # ---------------- wasm.rs
+    p = os.path.join(R, "src", "wasm.rs")
+    src = t.strip_comments(t.read(p))
+    wasm = []
+    wasm_from = False
+    wasm_build = False
+    for attrs, name, params, ret, body in functions(t, src, p):
+        snake = camel_to_snake(name)
+        if snake in SETTER_IDS:
+            kind, stmts = parse_setter(t, p, name, params, body, r"self\.builder\s*\.config", ["self.clone()", "Ok(self.clone())"])
+            wasm.append((SETTER_IDS[snake], kind, stmts))
+        elif name == "from":
+            b = norm(body)
+            wasm_from = b == ("let strs = testCases .iter() .filter_map(|it| it.as_string()) .collect_vec(); if strs.is_empty() { "
+                              "return Err(JsValue::from(MISSING_TEST_CASES_MESSAGE)); } Ok(RegExpBuilder { builder: Builder::from(&strs), })")
+            if not wasm_from:
+                raise t.TranslateError(f"{p}: fn from has an unexpected body: {b[:120]}")
+        elif name == "build":
+            wasm_build = norm(body) == "self.builder.build()"
+            if not wasm_build:
+                raise t.TranslateError(f"{p}: fn build does not delegate to the library")
+        else:
+            raise t.TranslateError(f"{p}: unexpected function {name}")
+    out.append(lean_setters("wasmSetters", wasm, "setters of the WebAssembly class (src/wasm.rs)"))
+    out.append(f"def wasmFromRejectsEmptyBeforeLibrary : Bool := {'true' if wasm_from else 'false'}")
+    out.append(f"def wasmBuildDelegates : Bool := {'true' if wasm_build else 'false'}")
+    out.append("\nend Grexv.Gen")
+    t.write_if_changed("Setters.lean", "\n".join(out) + "\n")
+
+
+def gen_cli(t):
+    R = t.REPO
+    p = os.path.join(R, "src", "main.rs")
+    src = t.strip_comments(t.read(p))
+    m = re.search(r"pub\(crate\)\s+struct\s+Cli\s*\{", src)
+    if not m:
+        raise t.TranslateError(f"{p}: struct Cli not found")
+    body = balanced(t, src, m.end() - 1, p)
+    flags = []
+    field_of = {}
+    for fm in re.finditer(r"#\[arg\(((?:[^()]|\([^()]*\))*)\)\]\s*(\w+)\s*:\s*([\w<>]+)", body):
+        attr, field, ty = norm(fm.group(1)), fm.group(2), fm.group(3)
+        nm = re.search(r'\bname = "([\w-]+)"', attr)
+        if not nm:
+            continue  # INPUT positional
+        name = nm.group(1)
+        if name in ("file", "help", "version"):
+            continue
+        if name not in CLI_FIELDS:
+            raise t.TranslateError(f"{p}: struct Cli: unknown option --{name}")
+        short = re.search(r"\bshort(?: = '(.)')?", attr)
+        short_c = None
+        if short:
+            short_c = short.group(1) or name[0]
+        req = re.search(r'requires = "([\w-]+)"', attr)
+        default = re.search(r"default_value_t = (\d+)", attr)
+        parser = re.search(r"value_parser = (\w+)", attr)
+        flags.append((CLI_FIELDS[name], name, short_c, bool(re.search(r"\blong\b", attr)), CLI_FIELDS.get(req.group(1)) if req else None,
+                      ty, int(default.group(1)) if default else None, parser.group(1) if parser else None))
+        field_of[field] = CLI_FIELDS[name]
+    # dispatch in handle_input
+    import translate_src
+    hb = translate_src.find_fn_body(t, src, "handle_input", p)
+    ok_arm = re.search(r"Ok\(test_cases\)\s*=>\s*\{", hb)
+    if not ok_arm:
+        raise t.TranslateError(f"{p}: handle_input: `Ok(test_cases) => {{` not found")
+    arm = norm(balanced(t, hb, ok_arm.end() - 1, p))
+    rejects_empty = False
+    mm = re.match(r'if test_cases\.is_empty\(\) \{ return Err\("[^"]*"\.into\(\)\); \} ', arm)
+    if mm:
+        rejects_empty = True
+        arm = arm[mm.end():]
+    if not arm.startswith("let mut builder = RegExpBuilder::from(&test_cases);"):
+        raise t.TranslateError(f"{p}: handle_input does not start with RegExpBuilder::from(&test_cases)")
+    rest = arm[len("let mut builder = RegExpBuilder::from(&test_cases);"):].strip()
+    dispatch = []
+    while True:
+        mm = re.match(r"if cli\.(\w+) \{ builder\.(\w+)\(\s*(?:cli\.(\w+),?\s*)?\); \}\s*", rest)
+        if not mm:
+            break
+        cond, setter, arg = mm.group(1), mm.group(2), mm.group(3)
+        if cond not in field_of or setter not in SETTER_IDS or (arg and arg not in field_of):
+            raise t.TranslateError(f"{p}: handle_input: unknown field or setter in `if cli.{cond} {{ builder.{setter}(..) }}`")
+        dispatch.append((field_of[cond], SETTER_IDS[setter], field_of[arg] if arg else None))
+        rest = rest[mm.end():]
+    mm = re.match(r"builder((?:\s*\.\w+\(cli\.\w+\))+);\s*", rest)
+    if mm:
+        for cm in re.finditer(r"\.(\w+)\(cli\.(\w+)\)", mm.group(1)):
+            setter, arg = cm.group(1), cm.group(2)
+            if setter not in SETTER_IDS or arg not in field_of:
+                raise t.TranslateError(f"{p}: handle_input: unknown setter/field in the threshold chain")
+            dispatch.append((None, SETTER_IDS[setter], field_of[arg]))
+        rest = rest[mm.end():]
+    tail_ok = rest == 'let regexp = builder.build(); println!("{}", regexp); Ok(())'
+    if not tail_ok:
+        raise t.TranslateError(f"{p}: handle_input: unexpected statements after the dispatch: {rest[:100]!r}")
+    # the value parser of the thresholds
+    pb = norm(translate_src.find_fn_body(t, src, "repetition_options_parser", p))
+    parser_ok = ("match value.parse::<u32>() { Ok(parsed_value) => { if parsed_value > 0 { Ok(parsed_value) } else { Err(" in pb)
+    out = ["-- GENERATED by tools/translate.py from /repo/src/main.rs — do not edit", "import Grexv.Model.GenTypes", "namespace Grexv.Gen\n"]
+    rows = []
+    for fid, name, short_c, long_, req, ty, default, parser in flags:
+        rows.append(f"  ⟨.{fid}, {t_lean_string(name)}, {('some ' + str(ord(short_c))) if short_c else 'none'}, {'true' if long_ else 'false'}, "
+                    f"{('some .' + req) if req else 'none'}, {'true' if ty == 'bool' else 'false'}, {('some ' + str(default)) if default is not None else 'none'}, "
+                    f"{'true' if parser == 'repetition_options_parser' else 'false'}⟩")
+    out.append("/-- the options of `struct Cli` (src/main.rs) -/\ndef cliFlags : List CliFlag := [\n" + ",\n".join(rows) + "]\n")
+    rows = [f"  ⟨{('some .' + c) if c else 'none'}, .{s}, {('some .' + a) if a else 'none'}⟩" for c, s, a in dispatch]
+    out.append("/-- `handle_input`: `if cli.<cond> { builder.<setter>(cli.<arg>) }` in source order -/\ndef cliDispatch : List CliAction := [\n" + ",\n".join(rows) + "]\n")
+    out.append(f"def cliThresholdParserRejectsZero : Bool := {'true' if parser_ok else 'false'}")
+    out.append(f"/-- `handle_input` returns an error for an empty list before it reaches the panicking `RegExpBuilder::from` -/\ndef cliRejectsEmptyInput : Bool := {'true' if rejects_empty else 'false'}")
+    ob = norm(translate_src.find_fn_body(t, src, "obtain_input", p))
+    out.append(f"/-- no `unwrap()` on a line read from standard input -/\ndef cliStdinErrorsPropagated : Bool := {'false' if 'unwrap()' in ob.replace('cli.input.first().unwrap()', '') else 'true'}")
+    err_arm = norm(hb[hb.index('Err(error) =>'):]) if 'Err(error) =>' in hb else ''
+    out.append(f"/-- every input error is turned into `Err(message)` (exit status 1 in `main`), none re-raised as a panic -/\ndef cliErrorsBecomeMessages : Bool := {'true' if err_arm and 'panic!' not in err_arm and 'unwrap' not in err_arm else 'false'}")
+    out.append("def cliPrintsBuildAndNewline : Bool := true   -- `println!(\"{}\", builder.build())` recognised above")
+    out.append("\nend Grexv.Gen")
+    t.write_if_changed("Cli.lean", "\n".join(out) + "\n")
+
+
+def t_lean_string(s):
+    return '"' + s.replace("\\", "\\\\").replace('"', '\\"') + '"'
+
+
 def generate(t):
-    pass
+    gen_setters(t)
+    gen_cli(t)
